@@ -174,7 +174,7 @@ def inspect_chart(res, spec, ref, st, schedule, xlim_req, hist):
 
 def run_charts(res, spec):
     import matplotlib.pyplot as plt
-    from job_shop_lib.visualization import get_partial_gantt_chart_plotter
+    from job_shop_lib.visualization import get_partial_gantt_chart_plotter, GanttChartCreator
 
     ref = Ref(spec)
     inst = impl.mk_instance(spec)
@@ -196,18 +196,25 @@ def run_charts(res, spec):
             inspect_chart(res, spec, ref, st, d.schedule, xl, hist)
         # the same plotter object reused for many schedules (makespans go up and
         # down along the traversal): each chart shows ITS schedule
-        fig = plotter(d.schedule, None, d.available_operations(), d.current_time())
-        try:
-            ax = fig.axes[0]
-            mk = st.makespan()
-            lo, hi = ax.get_xlim()
-            n_bars = len(ax.collections) + len([p for p in ax.patches if hasattr(p, "get_width")])
-            if mk > 0 and not (close(lo, 0) and close(hi, mk)):
-                res.violation("gantt_chart_matches_schedule", "reused-plotter-x-axis-wrong", spec=spec, history=hist, observed=(lo, hi), expected=(0, mk))
-            if n_bars != len(st.where):
-                res.violation("gantt_chart_matches_schedule", "reused-plotter-number-of-bars", spec=spec, history=hist, bars=n_bars, scheduled=len(st.where))
-        finally:
-            plt.close(fig)
+        figs = [("reused-plotter", plotter(d.schedule, None, d.available_operations(), d.current_time()))]
+        if len(hist) in (ref.N, ref.N // 2):
+            # the way an environment draws: a GanttChartCreator on the dispatcher
+            creator = GanttChartCreator(d)
+            if creator.dispatcher is not d or creator.schedule is not d.schedule or creator.instance is not inst:
+                res.violation("gantt_chart_matches_schedule", "creator-views-wrong-objects", spec=spec, history=hist)
+            figs.append(("creator", creator.plot_gantt_chart()))
+        for via, fig in figs:
+            try:
+                ax = fig.axes[0]
+                mk = st.makespan()
+                lo, hi = ax.get_xlim()
+                n_bars = len(ax.collections) + len([p for p in ax.patches if hasattr(p, "get_width")])
+                if mk > 0 and not (close(lo, 0) and close(hi, mk)):
+                    res.violation("gantt_chart_matches_schedule", f"{via}-x-axis-wrong", spec=spec, history=hist, observed=(lo, hi), expected=(0, mk))
+                if n_bars != len(st.where):
+                    res.violation("gantt_chart_matches_schedule", f"{via}-number-of-bars", spec=spec, history=hist, bars=n_bars, scheduled=len(st.where))
+            finally:
+                plt.close(fig)
     res.add("states", len(seen))
     res.add("traces", len(seen))
     if ref.N >= 3 and ref.J >= 2 and len(res.samples) < 1:
